@@ -60,6 +60,7 @@ type world struct {
 	extra  []*offerer // further v1 offerers for concurrent rounds
 	mu     sync.Mutex
 	inbox  map[enode.ID]chan *portalwire.ContentElement
+	past   map[string]string // content key -> what the case that offered it allows to be handed over
 	stop   chan struct{}
 }
 
@@ -275,18 +276,79 @@ func (w *world) awaitElement(o *offerer, d time.Duration) *portalwire.ContentEle
 	}
 }
 
+// awaitMine waits for an element of offerer o that carries at least one of keys. Elements of other transfers of this
+// offerer - an earlier case whose hand-over came after that case had stopped waiting - are not this case's: they are
+// judged against what their own case expected (a stream that had to be discarded must not arrive late either) and
+// dropped. Content keys are fresh random bytes per case, so the attribution is exact.
+func (w *world) awaitMine(o *offerer, keys [][]byte, d time.Duration) *portalwire.ContentElement {
+	set := map[string]bool{}
+	for _, k := range keys {
+		set[string(k)] = true
+	}
+	w.mu.Lock()
+	ch := w.inbox[o.adv.ID()]
+	w.mu.Unlock()
+	deadline := time.After(d)
+	for {
+		select {
+		case el := <-ch:
+			for _, k := range el.ContentKeys {
+				if set[string(k)] {
+					return el
+				}
+			}
+			w.lateElement(el)
+		case <-deadline:
+			return nil
+		}
+	}
+}
+
+// expect records what the case that offered these keys allows to reach the validation queue.
+func (w *world) expect(keys [][]byte, what string) {
+	w.mu.Lock()
+	if w.past == nil {
+		w.past = map[string]string{}
+	}
+	for _, k := range keys {
+		w.past[string(k)] = what
+	}
+	w.mu.Unlock()
+}
+
+func (w *world) lateElement(el *portalwire.ContentElement) {
+	w.r.Count("elements_of_earlier_transfers_that_arrived_after_their_case", 1)
+	if len(el.ContentKeys) == 0 {
+		return
+	}
+	w.mu.Lock()
+	what := w.past[string(el.ContentKeys[0])]
+	w.mu.Unlock()
+	switch what {
+	case "", "complete":
+		// unknown (a held transfer of another sub-scenario) or a complete transfer handed over late
+	case "nothing-accepted":
+		w.r.Violation("element-without-accept:late", "a ContentElement appeared (after its case had stopped waiting) although no key of that offer was accepted", map[string]any{"keys": len(el.ContentKeys)})
+	default:
+		w.r.Violation("bad-stream-not-discarded:"+what+":late", fmt.Sprintf("a stream that did not carry exactly the accepted items (%s) was handed to validation after its case had stopped waiting (%d items)", what, len(el.Contents)), map[string]any{"keys": len(el.ContentKeys)})
+	}
+}
+
 func (w *world) drain(o *offerer) {
 	w.mu.Lock()
 	ch := w.inbox[o.adv.ID()]
 	w.mu.Unlock()
 	for {
 		select {
-		case <-ch:
+		case el := <-ch:
+			w.lateElement(el)
 		default:
 			return
 		}
 	}
 }
+
+var notHandedOver atomic.Int64 // cases that waited out the node's read timeout without a hand-over
 
 func cid(key []byte) [32]byte { return sha256.Sum256(key) }
 
@@ -491,9 +553,10 @@ func offerCase(w *world, idx int) {
 	if len(acc) == 0 {
 		r.Count("offers_nothing_accepted", 1)
 		// no key accepted: nothing may be handed to validation, whatever is streamed at the announced id
+		w.expect(keys, "nothing-accepted")
 		if idx%5 == 0 {
 			_ = w.stream(o, rp.connID, portalwire.VerifEncodeContents([][]byte{[]byte("x")}), 400*time.Millisecond)
-			if el := w.awaitElement(o, 300*time.Millisecond); el != nil {
+			if el := w.awaitMine(o, keys, 300*time.Millisecond); el != nil {
 				r.Violation("element-without-accept", "a ContentElement appeared although no key was accepted", wit(rp))
 			}
 			r.Count("nothing_accepted_dial_attempts", 1)
@@ -518,6 +581,7 @@ func offerCase(w *world, idx int) {
 			mode, body = "one-more", portalwire.VerifEncodeContents(append(append([][]byte{}, accContents...), []byte("surplus")))
 		}
 	}
+	w.expect(accKeys, mode)
 	err := w.stream(o, rp.connID, body, 5*time.Second)
 	r.Count("transfer_"+mode, 1)
 	if err != nil {
@@ -530,9 +594,26 @@ func offerCase(w *world, idx int) {
 		return
 	}
 	if mode == "complete" {
-		el := w.awaitElement(o, 10*time.Second)
+		// The stream was written and closed without an error. The node reads until the end of the stream or until its
+		// own 60 s read timeout, whichever comes first (utp-go now and then delivers the end of a stream late or not
+		// at all), and hands over what it has read either way: the element is due within that timeout, not sooner.
+		// Once three cases have waited that long in vain the rest waits 5 s and is only counted.
+		wait := 75 * time.Second
+		if notHandedOver.Load() >= 3 {
+			wait = 5 * time.Second
+		}
+		t0 := time.Now()
+		el := w.awaitMine(o, accKeys, wait)
+		if d := time.Since(t0); d > 10*time.Second {
+			r.Count("handovers_later_than_10s_after_the_stream_was_closed", 1)
+		}
 		if el == nil {
-			r.Violation("accepted-content-not-handed-over", fmt.Sprintf("%d accepted items were streamed completely but nothing reached the validation queue within 10 s", len(acc)), wit(rp))
+			if wait < 75*time.Second {
+				r.Count("accepted_content_not_handed_over_within_5s_not_judged", 1)
+				return
+			}
+			notHandedOver.Add(1)
+			r.Violation("accepted-content-not-handed-over", fmt.Sprintf("%d accepted items were streamed completely but nothing reached the validation queue within 75 s (the node's read timeout is 60 s)", len(acc)), wit(rp))
 			return
 		}
 		if len(el.ContentKeys) != len(accKeys) || len(el.Contents) != len(accContents) {
@@ -553,7 +634,7 @@ func offerCase(w *world, idx int) {
 		return
 	}
 	// a stream with a different item count (or truncated) is discarded
-	if el := w.awaitElement(o, 600*time.Millisecond); el != nil {
+	if el := w.awaitMine(o, accKeys, 600*time.Millisecond); el != nil {
 		r.Violation("bad-stream-not-discarded:"+mode, fmt.Sprintf("a stream that does not carry exactly the %d accepted items (%s) was handed to validation (%d items)", len(acc), mode, len(el.Contents)), wit(rp))
 	} else {
 		r.Count("bad_streams_discarded", 1)
@@ -629,7 +710,7 @@ func slotCases(r *lib.Run, idx, limit int) {
 			// nobody is waiting there: a stream must not produce an element
 			_ = w.stream(o, rp.connID, portalwire.VerifEncodeContents([][]byte{[]byte("x")}), 300*time.Millisecond)
 		}
-		if el := w.awaitElement(o, 200*time.Millisecond); el != nil {
+		if el := w.awaitMine(o, ks, 200*time.Millisecond); el != nil {
 			r.Violation("element-without-accept", "a ContentElement appeared for an offer that got no slot", map[string]any{"limit": limit})
 		}
 	}
